@@ -160,7 +160,7 @@ static void drv_step(struct cmd *c)
 		}
 		else if (a[0] == 'a') {
 			char *val = arg_str(c, "val");
-			int r = mpt_config_set(cfg, path, val, sep, 0);
+			int r = mpt_config_set(cfg, path, val, sep, (int) drv_int(c, "end", 0));
 			emit_store(c, r < 0 ? "refused" : "ok", 0, 0);
 			free(val);
 		}
